@@ -210,7 +210,7 @@ def corpus_first(ctx):
                 ctx.violate(rep["signature"], "corpus witness %s: %s" % (f.name, "; ".join(d[:2])), r)
 
 
-def run(ctx):
+def _run(ctx):
     rnd = ctx.rng
     corpus_first(ctx)
     inputs = [(n, t, True) for n, t in pdbgen.test_files(["1HPX", "3SGB-subset", "sample-issue-140"] if ctx.quick() else ["1HPX", "3SGB", "4DFR", "1FTJ-Chain-A", "sample-issue-140"])]
@@ -322,6 +322,12 @@ def run(ctx):
     # the rotation family used by the generator is the one of the theorem
     mats = sorted(tuple(map(tuple, m)) for m in pdbgen.rotations24())
     ctx.oblige("tie: the harness's 24 rotations are 24 distinct signed permutation matrices of determinant +1", len(set(mats)) == 24, "")
+
+
+def run(ctx):
+    from .. import scoring_common
+    with scoring_common.tie(ctx, "C04's structures and their rigid motions"):
+        _run(ctx)
 
 
 def replay(ctx, rep):
